@@ -39,7 +39,7 @@ def load_code(u):
     ]
 
 
-def process_references(u, inst, proc, param_t, map_t, red_t, props):
+def process_references(u, inst, proc, param_t, map_t, red_t, props, thread=("map", "reduce")):
     """One monomorphised copy of the generic driver (R10) for call site `inst`."""
     f = u.real_fn(GEN, "process_references", emit_name="process_references_%s" % inst, props=props)
     rules.sig(f, replace_header="pub fn process_references_%s(context: &Context, params: Option<%s>, finder: &CodeFinder, %s) -> (res: Option<%s>)"
@@ -50,7 +50,7 @@ def process_references(u, inst, proc, param_t, map_t, red_t, props):
     rules.sig(blk, ret="res", world=True)
     rules.r10_mono(blk, {"ProcessorType": proc})
     rules.r9_stop_poll(blk, ["stop_flag"])
-    rules.r8_thread(blk, [r"load_code\("] + ([r"%s::map\(" % "ProcessorType", r"%s::reduce\(" % "ProcessorType"] if inst != "nextid" else []))
+    rules.r8_thread(blk, [r"load_code\("] + [r"ProcessorType::%s\(" % t for t in thread])
     return f, blk
 
 
@@ -114,6 +114,121 @@ def count_driver(u):
     return f, blk
 
 
+def nextid_driver(u):
+    props = ("C01", "C05", "C06", "C16", "C17", "C18")
+    f, blk = process_references(u, "nextid", "NextReferenceIdProcessor", "u32", "(u32, usize)", "(u32, usize)", props, thread=())
+    cfg = "context.config"
+    pre = [
+        "finder_ok(finder.code_files@, *old(w))",
+        "tree_small(old(w).files, old(w).fs)",
+    ]
+    tm = "tree_missing(old(w).files, old(w).fs, CFG, old(w).files.len() as int)"
+    tx = "tree_max(old(w).files, old(w).fs, CFG, old(w).files.len() as int)"
+    post = [
+        ("C04.frame", "final(w).fs == old(w).fs && same_but_fs(World { log: final(w).log, stop_seen: final(w).stop_seen, ..*old(w) }, *final(w))"),
+        ("C18.edit", "res.is_none() ==> final(w).stop_seen"),
+        ("C05.same", "res.is_some() ==> res.unwrap().1 as int == %s" % tm),
+        # the first new ID is 1 on a tree without IDs, else greater than every existing one (u32::MAX is never handed out)
+        ("C01.next", "res.is_some() ==> res.unwrap().0 >= 1 && (res.unwrap().0 as int > %s || res.unwrap().0 == u32::MAX)" % tx),
+        ("C01.next", "res.is_some() ==> (%s == 0 ==> res.unwrap().0 == 1)" % tx),
+    ]
+    f.requires += pre
+    f.ensures += [(l, x.replace("CFG", cfg)) for l, x in post]
+    blk.requires += pre
+    blk.ensures += [(l, x.replace("CFG", "config_task_outer")) for l, x in post]
+    blk.at_start(" let ghost files = w.files; let ghost cfg = config_task_outer; let ghost fs0 = w.fs;"
+                 " proof { lemma_tree_missing_nonneg(files, fs0, cfg, 0); assert(tree_missing(files, fs0, cfg, files.len() as int) <= u32::MAX); }")
+    blk.loop_spec(0, [
+        "0 <= it.index@ <= files.len()", "files == old(w).files", "cfg == config_task_outer", "fs0 == old(w).fs",
+        "finder_ok(finder.code_files@, *w)",
+        "tree_missing(files, fs0, cfg, files.len() as int) <= u32::MAX",
+        ("C04.frame", "w.fs == old(w).fs && same_but_fs(World { log: w.log, stop_seen: w.stop_seen, ..*old(w) }, *w)"),
+        ("C01.next,C05.same", "all_map_results@ == nextid_results(files, fs0, cfg, it.index@)"),
+        ("C05.same", "forall|i: int| 0 <= i < it.index@ ==> file_missing(fs0, cfg, #[trigger] files[i]) <= u32::MAX"),
+    ], iter_name="it", kind="for")
+    blk.before_stmt("let path = file.path.clone();", "proof { lemma_tree_missing_mono(files, fs0, cfg, it.index@ + 1, files.len() as int);"
+                    " lemma_tree_missing_nonneg(files, fs0, cfg, it.index@); assert(files[it.index@] == file.path@);"
+                    " if readable(file.path@) { lemma_max_ref_bounds(found(fs0[file.path@], cfg), found(fs0[file.path@], cfg).len() as int);"
+                    " lemma_n_missing_bounds(found(fs0[file.path@], cfg), found(fs0[file.path@], cfg).len() as int); } }\n            ")
+    blk.before("ProcessorType::reduce(", "proof { lemma_nextid_results(files, fs0, cfg, files.len() as int); }\n        ")
+    return f, blk
+
+
+def insert_driver(u):
+    props = ("C01", "C02", "C03", "C05", "C06", "C07", "C08", "C15", "C17", "C18")
+    f, blk = process_references(u, "insert", "InsertReferencesProcessor", "Arc<AtomicU32>", "InsertReferencesResult", "InsertReferencesResult", props, thread=("map",))
+    pre = [
+        "finder_ok(finder.code_files@, *old(w))",
+        "tree_small(old(w).files, old(w).fs)",
+        "atomic_inv(*old(w))", "!old(w).check_mode", "params.is_some()",
+        "1 <= old(w).counter <= u32::MAX",
+        "old(w).fs == old(w).orig", "old(w).intended == Map::<Seq<char>, Seq<u8>>::empty()", "old(w).alloc == Map::<Seq<char>, int>::empty()",
+    ]
+    post = [
+        ("C07.frame", "atomic_inv(*final(w))"),
+        ("C01.unique", "alloc_inv(*final(w), CFG, old(w).counter)"),
+        ("C01.nowrap", "old(w).counter <= final(w).counter <= u32::MAX"),
+        ("C18.edit", "res.is_none() ==> final(w).stop_seen"),
+        ("C08.fail", "res.is_some() && !res.unwrap().failure ==> all_edited(*final(w), CFG, final(w).files.len() as int)"),
+        ("C05.count", "res.is_some() && !res.unwrap().failure ==> res.unwrap().num_inserted_references as int == tree_missing(old(w).files, old(w).orig, CFG, old(w).files.len() as int)"),
+        ("C06.noop", "tree_missing(old(w).files, old(w).orig, CFG, old(w).files.len() as int) == 0 ==> final(w).fs == old(w).fs && final(w).counter == old(w).counter"),
+        ("C02.lockframe", "final(w).fs.dom().contains(lock_path()) == old(w).fs.dom().contains(lock_path()) && final(w).fs[lock_path()] == old(w).fs[lock_path()]"),
+        ("C04.frame", "final(w).orig == old(w).orig && final(w).protected == old(w).protected && final(w).files == old(w).files && final(w).check_mode == old(w).check_mode && final(w).handlers == old(w).handlers"),
+    ]
+    f.requires += pre
+    f.ensures += [(l, x.replace("CFG", "context.config")) for l, x in post]
+    blk.requires += pre
+    blk.ensures += [(l, x.replace("CFG", "config_task_outer")) for l, x in post]
+    blk.at_start(" let ghost files = w.files; let ghost cfg = config_task_outer; let ghost start = w.counter;"
+                 " proof { lemma_tree_missing_nonneg(files, w.orig, cfg, 0); assert(tree_missing(files, w.orig, cfg, files.len() as int) <= u32::MAX); }")
+    blk.loop_spec(0, [
+        "0 <= it.index@ <= files.len()", "files == old(w).files", "files == w.files", "cfg == config_task_outer", "start == old(w).counter",
+        "finder_ok(finder.code_files@, *w)", "params.is_some()", "!w.check_mode",
+        "tree_missing(files, w.orig, cfg, files.len() as int) <= u32::MAX",
+        ("C07.frame", "atomic_inv(*w)"),
+        ("C04.frame", "w.orig == old(w).orig && w.protected == old(w).protected && w.files == old(w).files && w.check_mode == old(w).check_mode && w.handlers == old(w).handlers"),
+        ("C18.edit", "w.stop_seen == old(w).stop_seen"),
+        ("C01.nowrap", "1 <= start <= w.counter <= u32::MAX"),
+        ("C01.unique", "alloc_inv(*w, cfg, start)"),
+        # files not yet visited are exactly as at the start of the run
+        ("C01.unique,C07.frame", "forall|i: int| it.index@ <= i < files.len() ==> w.fs[#[trigger] files[i]] == w.orig[files[i]] && !w.intended.dom().contains(files[i]) && !w.alloc.dom().contains(files[i])"),
+        ("C07.intended", "forall|p: Seq<char>| w.intended.dom().contains(p) ==> w.protected.contains(p)"),
+        ("C08.fail", "!any_failure(all_map_results@) ==> all_edited(*w, cfg, it.index@)"),
+        ("C05.count", "!any_failure(all_map_results@) ==> sum_inserted(all_map_results@) == tree_missing(files, w.orig, cfg, it.index@)"),
+        ("C05.count", "0 <= sum_inserted(all_map_results@) <= tree_missing(files, w.orig, cfg, it.index@)"),
+        ("C06.noop", "tree_missing(files, w.orig, cfg, it.index@) == 0 ==> w.fs == old(w).fs && w.counter == old(w).counter"),
+        ("C02.lockframe", "w.fs.dom().contains(lock_path()) == old(w).fs.dom().contains(lock_path()) && w.fs[lock_path()] == old(w).fs[lock_path()]"),
+    ], iter_name="it", kind="for")
+    lob = blk.loop_open_brace(blk.loops()[0][2])
+    blk.insert_at(lob + 1, " proof { lemma_tree_missing_mono(files, w.orig, cfg, it.index@ + 1, files.len() as int);"
+                  " lemma_tree_missing_mono(files, w.orig, cfg, it.index@, files.len() as int);"
+                  " lemma_tree_missing_nonneg(files, w.orig, cfg, it.index@); assert(files[it.index@] == file.path@); }"
+                  " let ghost w0 = *w; let ghost res0 = all_map_results@;")
+    # ghost bookkeeping after the file's map: remember the first ID of a replaced file, and re-establish the tree invariants
+    s0, e0, _ = blk.find_one("if let Some(map_result) =")
+    ob = blk.mbody.index("{", e0)
+    from weave import lexer
+    cb = lexer.match_close(blk.body, ob)
+    blk.before_stmt("if let Some(map_result) =", "let ghost w_mid = *w;\n                ")
+    blk.insert_at(ob + 1, " proof { if w.fs[file.path@] != w.orig[file.path@] { record_alloc(w, file.path@, w_mid.counter); } }", "G", "record first ID of a replaced file")
+    blk.insert_at(cb, """
+                    proof {
+                        let p = file.path@;
+                        assert(all_map_results@.drop_last() == res0);
+                        assert forall|i: int| it.index@ + 1 <= i < files.len() implies
+                            w.fs[#[trigger] files[i]] == w.orig[files[i]] && !w.intended.dom().contains(files[i]) && !w.alloc.dom().contains(files[i]) by {
+                            assert(files[i] != p);
+                            assert(w.protected.contains(files[i]));
+                        }
+                        assert forall|q: Seq<char>| w.intended.dom().contains(q) implies w.protected.contains(q) by {
+                            if q != p { assert(w0.intended.dom().contains(q)); }
+                        }
+                    }
+                """, "G", "tree invariants after one file")
+    blk.before("ProcessorType::reduce(", "proof { assert(tree_missing(files, w.orig, cfg, files.len() as int) <= u32::MAX); }\n        ")
+    return f, blk
+
+
 def check_references(u):
     f = u.real_fn(GEN, "check_references", props=("C04", "C05", "C16", "C17", "C18"))
     rules.sig(f, ret="res", world=True)
@@ -155,6 +270,8 @@ def build():
     load_code(u)
     count_driver(u)
     check_references(u)
+    nextid_driver(u)
+    insert_driver(u)
     u.raw("}\n")
     u.raw("fn main() {}\n")
     u.assume("the tree has fewer than 2^32 recognised statements per file and in total (u32/usize sums of per-file counts cannot overflow)")
